@@ -74,6 +74,8 @@ pub struct ServerState {
     pub next_share_id: u32,
     pub write_log: Vec<(u64, usize)>,
     pub fail_writes_after: Option<usize>,
+    /// at most this many bytes are accepted per write call
+    pub write_chunk: usize,
     // --- transport security
     pub tls: Option<TlsServer>,
     pub tls_identity: usize,
@@ -94,6 +96,8 @@ pub struct ServerState {
     pub nla_buf: Vec<u8>,
     pub final_hook: Option<FinalHook>,
     pub challenge_hook: Option<ChallengeHook>,
+    /// an attacker without the account's secrets: replies to the AUTHENTICATE round without verifying anything
+    pub blind_hook: Option<BlindHook>,
 }
 
 #[derive(Clone, Copy, Debug, PartialEq, Eq)]
@@ -178,6 +182,15 @@ pub enum FinalAction {
 }
 
 pub type FinalHook = Box<dyn FnMut(&FinalCtx) -> FinalAction + Send>;
+
+/// what a man in the middle sees of the AUTHENTICATE round
+pub struct BlindCtx {
+    pub subject_public_key: Vec<u8>,
+    pub client_pub_key_auth: Vec<u8>,
+    pub client_authenticate_request: Vec<u8>,
+    pub ts_version: u64,
+}
+pub type BlindHook = Box<dyn FnMut(&BlindCtx) -> Vec<u8> + Send>;
 /// (NTLM CHALLENGE bytes, honest TSRequest bytes) -> replacement TSRequest bytes
 pub type ChallengeHook = Box<dyn FnMut(&[u8], &[u8]) -> Option<Vec<u8>> + Send>;
 
@@ -211,6 +224,7 @@ impl ServerState {
             next_share_id: sid,
             write_log: Vec::new(),
             fail_writes_after: None,
+            write_chunk: usize::MAX,
             tls: None,
             tls_identity: 0,
             tls12_only: false,
@@ -225,6 +239,7 @@ impl ServerState {
             nla_buf: Vec::new(),
             final_hook: None,
             challenge_hook: None,
+            blind_hook: None,
         }
     }
 
@@ -348,6 +363,16 @@ impl ServerState {
                 };
                 self.nla_log.authenticate = Some(auth.clone());
                 let cfg = self.nla_cfg.clone();
+                if let Some(h) = self.blind_hook.as_mut() {
+                    let id = tls::identity(self.tls_identity);
+                    let reply = h(&BlindCtx { subject_public_key: id.subject_public_key.clone(), client_pub_key_auth: t.pub_key_auth.clone().unwrap_or_default(), client_authenticate_request: der.clone(), ts_version: cfg.ts_version });
+                    self.nla = NlaState::ExpectAuthInfo { c2s: Direction::new(&[0u8; 16], true) };
+                    self.plain_after_final_reply = 0;
+                    self.nla_log.final_reply_honest = false;
+                    self.nla_log.final_reply_sent = Some(reply.clone());
+                    self.send_ts("ts-blind-reply", &reply);
+                    return;
+                }
                 let res = ntlm::verify_authenticate(&negotiate, &challenge, &auth, &cfg.server_challenge, cfg.challenge_flags, &cfg.target_info, &cfg.account);
                 self.nla_log.auth = Some(res.clone());
                 let ar = match res {
@@ -604,6 +629,7 @@ impl Duplex {
                 return Err(io::Error::new(io::ErrorKind::BrokenPipe, "injected"));
             }
         }
+        let buf = &buf[..buf.len().min(s.write_chunk.max(1))];
         s.bytes_written += buf.len();
         let clk = s.clock;
         s.write_log.push((clk, buf.len()));
